@@ -258,9 +258,16 @@ func c06Writer() {
 }
 
 func c06Body() func(h []dsim.Rec) {
-	if dsim.Choose(3) == 2 {
+	switch dsim.Choose(7) {
+	case 2, 5:
 		c06Writer()
-	} else {
+	case 6:
+		// node level: a real node with an incoming key (any outgoing version), peers sending
+		// authentic frames, frames with a damaged signature (some dated ahead) and junk; only
+		// authenticated frames may surface as frame events (the C10 event-stream oracles)
+		count("cov:keyed-node")
+		return eventStreamRun(true)
+	default:
 		c06Reader()
 	}
 	return nil
@@ -269,7 +276,8 @@ func c06Body() func(h []dsim.Rec) {
 func init() {
 	register(&Prop{
 		ID:       "C06",
-		MaxSteps: 2000,
+		MaxSteps: 400000,
+		Horizon:  40 * 365 * 24 * time.Hour,
 		Body:     c06Body,
 		Rule: "one evaluation = either (reader) one reference-signed frame read by the real keyed reader under EVERY single-bit flip plus " +
 			"a mixed stream of authentic frames and forgeries (v1, unsigned v2, wrong key, replaced signature, re-stamped) with a " +
@@ -278,7 +286,7 @@ func init() {
 			"non-trivial = at least 100 tampered variants were evaluated or at least 2 frames were written",
 		Nontrivial: func(r *dsim.Result) bool {
 			for _, rec := range r.History {
-				if (rec.Kind == "flips" && rec.I[0] >= 100) || (rec.Kind == "signed-out" && rec.I[0] >= 2) {
+				if (rec.Kind == "flips" && rec.I[0] >= 100) || (rec.Kind == "signed-out" && rec.I[0] >= 2) || (rec.Kind == "evt" && rec.I[0] == evFrame) {
 					return true
 				}
 			}
